@@ -32,8 +32,9 @@ Definition F_SSH_LOOP := 1%N.       (* ssh-simulator env/exec: slice grows for e
 Definition F_VNC_PUSHER := 2%N.     (* failf in pushFramesLoop goroutine *)
 Definition F_TFTP_MAP := 3%N.       (* concurrent map access *)
 Definition F_ALLOC := 4%N.          (* allocation of a client-declared length: out of memory *)
-Definition F_IPP_GROUPS := 5%N.     (* ipp message loop appends groups for ever *)
-Definition F_IPP_BOOL := 6%N.       (* ipp boolean value loop appends for ever *)
+Definition F_IPP_GROUPS := 5%N.     (* ipp message loop appended groups for ever: repaired in /repo (02601aa) *)
+Definition F_IPP_BOOL := 6%N.       (* ipp boolean value loop appended for ever: repaired in /repo (2160ad7);
+                                       both kept for the regression signature ipp-decode-loop *)
 
 Inductive conn_end :=
 | Closed             (* connection closed, nothing reported *)
@@ -312,7 +313,7 @@ Definition cs_handle (dg : bytes) : res :=
   let buf := firstn 1024 dg in
   let head := firstn 4 (buf ++ [0;0;0;0]%N) in
   if eqb_bytes head [255;255;255;255]%N || eqb_bytes head [255;255;255;254]%N then
-    if (length buf <=? 3)%nat then RPanic 1 else ROk
+    if (length buf <=? 4)%nat then RPanic 1 else ROk
   else ROk.
 
 (* adb: one conn.Read per segment into a reused 4096-byte buffer (a short read leaves
